@@ -248,13 +248,49 @@ func KeyIDs() []string { return keyIDs }
 // SvcIDs is the service id pool.
 func SvcIDs() []string { return svcIDs }
 
+var purposeSets = []string{
+	`["authentication"]`, `["assertionMethod"]`, `["authentication","keyAgreement"]`, `[]`,
+	`["capabilityDelegation","capabilityInvocation"]`, `["authentication","assertionMethod","keyAgreement"]`,
+}
+
+func idMarkHash(id, mark string) int {
+	h := 0
+	for _, c := range id + mark {
+		h = (h*31 + int(c)) & 0xffffff
+	}
+
+	return h
+}
+
+// keyJSON: the marker is carried in the x coordinate (the validator only checks presence); purposes and
+// key type vary with (id, marker) so that documents differ in more than ids.
 func keyJSON(id, mark string) string {
-	// the marker is carried in the x coordinate; the validator only checks presence
-	return fmt.Sprintf(`{"id":%q,"type":"JsonWebKey2020","purposes":["authentication"],"publicKeyJwk":{"kty":"EC","crv":"P-256","x":%q,"y":"nM84jDHCMOTGTh_ZdHq4dBBdo4Z5PkEOW9jA8z8IsGc"}}`, id, mark)
+	h := idMarkHash(id, mark)
+	typ := []string{"JsonWebKey2020", "JsonWebKey2020", "EcdsaSecp256k1VerificationKey2019"}[h%3]
+
+	purposes := `"purposes":` + purposeSets[h%len(purposeSets)] + ","
+	if purposeSets[h%len(purposeSets)] == "[]" {
+		purposes = "" // a key without purposes: a plain verification method (an empty list would be refused)
+	}
+
+	return fmt.Sprintf(`{"id":%q,"type":%q,%s"publicKeyJwk":{"kty":"EC","crv":"P-256","x":%q,"y":"nM84jDHCMOTGTh_ZdHq4dBBdo4Z5PkEOW9jA8z8IsGc"}}`, id, typ, purposes, mark)
 }
 
 func svcJSON(id, mark string) string {
-	return fmt.Sprintf(`{"id":%q,"type":"SimSvc","serviceEndpoint":"https://sim.example/%s"}`, id, mark)
+	if len(mark)%2 == 0 {
+		return fmt.Sprintf(`{"id":%q,"type":"SimSvc","serviceEndpoint":"https://sim.example/%s","priority":1}`, id, mark)
+	}
+
+	return fmt.Sprintf(`{"id":%q,"type":"OtherSvc","serviceEndpoint":"https://sim.example/%s"}`, id, mark)
+}
+
+// KeyPurposes returns the purposes keyJSON gives to the key (id, mark) – the relationship sections of the
+// external document must reference the key from exactly these.
+func KeyPurposes(id, mark string) []string {
+	var out []string
+	_ = json.Unmarshal([]byte(purposeSets[idMarkHash(id, mark)%len(purposeSets)]), &out)
+
+	return out
 }
 
 // ToPatch turns a description into a real patch.Patch through the public constructors.
